@@ -149,6 +149,7 @@ func ruleFreshCancelPerReservation(c *chk.Ctx, d *dispatchModel) {
 		}
 	})
 	if mu == nil {
+		c.Undecided("PROV.cancel", nil, "ruleFreshCancelPerReservation: anchor", 0, "the code this rule is anchored in was not found (mu == nil)")
 		return
 	}
 	isWC := func(v ssa.Value) bool {
@@ -801,6 +802,7 @@ func ruleMethodDecodedAsJSON(c *chk.Ctx) {
 func ruleStartTimeOnlyWhenUnset(c *chk.Ctx) {
 	start := startFunc(c)
 	if start == nil || c.M.Server == nil {
+		c.Undecided("TABLE.info", nil, "ruleStartTimeOnlyWhenUnset: anchor", 0, "the code this rule is anchored in was not found (start == nil || c.M.Server == nil)")
 		return
 	}
 	var field *types.Var
@@ -843,6 +845,7 @@ func ruleStartTimeOnlyWhenUnset(c *chk.Ctx) {
 func ruleParseRequestsNormalisesID(c *chk.Ctx) {
 	pr := c.M.Pkg.Func("ParseRequests")
 	if pr == nil {
+		c.Undecided("PROV.nullid", nil, "ruleParseRequestsNormalisesID: anchor", 0, "the code this rule is anchored in was not found (pr == nil)")
 		return
 	}
 	n, ok := 0, true
@@ -902,10 +905,12 @@ func ruleGetterAlwaysAnswers(c *chk.Ctx) {
 // ruleAcceptFailureEndsLoop (C20): once the accepter has failed, Loop does not accept again.
 func ruleAcceptFailureEndsLoop(c *chk.Ctx) {
 	if c.M.ServerPkg == nil {
+		c.Undecided("PAIR.loop", nil, "ruleAcceptFailureEndsLoop: anchor", 0, "the code this rule is anchored in was not found (c.M.ServerPkg == nil)")
 		return
 	}
 	loop := c.M.ServerPkg.Func("Loop")
 	if loop == nil {
+		c.Undecided("PAIR.loop", nil, "ruleAcceptFailureEndsLoop: anchor", 0, "the code this rule is anchored in was not found (loop == nil)")
 		return
 	}
 	var accept *ssa.Call
